@@ -68,4 +68,23 @@ def replay(prop: str, path: str) -> int:
     if "case" in rp:
         from . import checks_wire
         return checks_wire.replay_case(prop, obj)
-    raise SystemExit("unknown replay format")
+    if "program" in rp:
+        # a program of public calls on simulated inverters, judged span by span by TraceDecode.tla
+        from . import checks_decode, engine
+        run = engine.Run(prop, "replay", 0, "model_checking")
+        tr = engine.forked(checks_decode.run_program_values, rp["program"])
+        if tr["status"] != "ok":
+            print("MACHINERY: program did not finish: " + tr["status"])
+            return 2
+        checks_decode.judge_spans(run, [tr], (prop + ".",))
+        seen = set()
+        for v in run.violations:
+            if v["clause"] not in seen:
+                seen.add(v["clause"])
+                print(f"VIOLATION property={prop} replay={path} clause={v['clause']}")
+        return 1 if run.violations else 0
+    if "shufflejob" in rp:
+        from . import checks_shuffle
+        return checks_shuffle.replay_job(prop, obj, path)
+    print("this replay artefact documents the failing case (" + ", ".join(rp) + "); re-run the check to reproduce it")
+    return 2
